@@ -2,7 +2,7 @@
    panics once key decoding checks the exact length), digest pre-image injectivity and kind separation.
    Pinned statements only: `Check name : statement` fails if a statement is weakened. *)
 From Coq Require Import List NArith.
-From HS Require Import Codec Base64Defs Base64 WireDefs Wire.
+From HS Require Import Guards Codec Base64Defs Base64 WireDefs Wire.
 Import ListNotations.
 Open Scope N_scope.
 
@@ -148,3 +148,10 @@ Print Assumptions wire_preserves.
 Check store_preserves_block_pre : forall (exact : bool) (b : WBlock), wf_block b ->
   match decode_block exact (w_enc_block b) with Ok b' => block_pre b' = block_pre b | _ => False end.
 Print Assumptions store_preserves_block_pre.
+
+(* the pre-image layouts are the ones REGENERATED from the `hasher.update(..)` sequences of messages.rs (Guards.v) *)
+Check (eq_refl : pre_block = fun author round payload parent => g_pre_block author (le_bytes 8 round) (concat payload) parent).
+Check (eq_refl : pre_vote = fun hash round => g_pre_vote hash (le_bytes 8 round)).
+Check (eq_refl : pre_vote = fun hash round => g_pre_qc hash (le_bytes 8 round)).
+Check (eq_refl : pre_timeout = fun round hqr => g_pre_timeout (le_bytes 8 round) (le_bytes 8 hqr)).
+Check (eq_refl : pre_timeout = fun round hqr => g_pre_tc_entry (le_bytes 8 round) (le_bytes 8 hqr)).
